@@ -32,6 +32,10 @@ CLAIMED = {
  "C16": ("E-SEQ+E-FUN", ESEQ + "; plus configuration-lattice sweep for predefined channels", "DESIGN.md §4 C16",
          "Every history up to the bound in which channels are created, configured, emptied by PART/KICK/QUIT/EOF/KILL and re-created (fresh-channel oracle, absence after last exit); every subset of 16 settings of a predefined channel (quick: small and large subsets) through a join/leave/re-join script.", NOTE),
 }
+CLAIMED["C02"] = ("E-SEQ", ESEQ + "; ownership bijection in every state, attribution/reachability after every step", "DESIGN.md §4 C02",
+    "Every history up to the bound of 2-3 connections contending for nicknames x/y/z (NICK/USER/PASS/CAP/QUIT/EOF, acts by registered and by unregistered or refused connections) next to a registered witness; a refused or incomplete registration changes nothing; users <-> owning connections is a bijection in every state; every owner stays reachable and speaks under its own prefix after every step.", NOTE)
+CLAIMED["C03"] = ("E-SEQ", ESEQ + "; 7 configurations; gated-command battery in every pre-registration state", "DESIGN.md §4 C03",
+    "For 7 password/user/mask configurations every order and repetition of PASS/NICK/USER/CAP/AUTHENTICATE/QUIT up to the bound on a fresh connection; in every pre-registration state 30 gated commands must each get exactly 451 and change/reveal nothing; 001 iff the Spec registration machine completes; wrong/missing password => 464, closed, no user.", NOTE)
 PENDING = {}
 
 def main():
